@@ -102,8 +102,12 @@ def _await_checks(ctx, tr, prefix, by_main):
         ctx.check(f'{prefix}.child_complete' if not by_main else f'{prefix}.complete', snap['status'] == 'completed' and snap['signal'] is True,
                   ev=lab, got=(snap['status'], snap['signal']))
         # harness view: the event's handlers (on every bus that accepted it before the return) and all descendants are done
+        cancelled_somewhere = any(x.outcome == 'cancelled' for x in tr.X.values())
+
         def exp_fn(x):
-            return expected_pairs(ctx, tr, x, before_seq=ae.seq)
+            # after a time-out cancelled handlers, handlers that had not started are legitimately cancelled instead of run
+            # (C10); then only "every handler that did start has exited" is demanded here, plus bubus's own view below
+            return None if cancelled_somewhere else expected_pairs(ctx, tr, x, before_seq=ae.seq)
         ok_h = tr.tree_done(lab, ae.seq, exp_fn)
         ctx.check(f'{prefix}.descendants_complete', ok_h, ev=lab, why='a handler of the event or of a descendant had not finished (harness records)')
         # bubus view of the descendants at the same instant
